@@ -81,7 +81,7 @@ def strategy_class(kind):
 class Layout:
     """the scratch directories of one case: top/proj is the project root; the process is in one of four places"""
 
-    def __init__(self, top, cwd_kind, rootsp):
+    def __init__(self, top, cwd_kind, rootsp, links=()):
         self.top = os.path.realpath(top)
         self.root = os.path.join(self.top, "proj")
         os.makedirs(os.path.join(self.root, "inner"), exist_ok=True)
@@ -91,6 +91,11 @@ class Layout:
         rel = os.path.relpath(self.root, self.cwd)
         self.rootsp = {"abs": self.root, "rel": rel, "dotrel": "./" + rel, "abs/": self.root + "/",
                        "absdot": self.root + "/./"}[rootsp]
+        # symbolic links in the working directory of the process (an unrelated place unless the process is in the root)
+        if cwd_kind in ("top", "sibling"):
+            for name, target in links:
+                if not os.path.lexists(os.path.join(self.cwd, name)):
+                    os.symlink(target, os.path.join(self.cwd, name))
 
     def spell_query(self, comps, form):
         """a spelling of the path `root/comps` as an argument of is_ignored / is_submodule"""
@@ -155,10 +160,17 @@ class VcsCannedStream(Stream):
                     if kind == "pijul" and rng.random() < 0.5:
                         noise.append("")
             subs = []
+            links = []
             if kind == "git" and rng.random() < 0.7:
-                spool = [x for x in pool if not has_linebreak([x])] or ["mod"]
+                # `git config -z` ends every value with NUL, so a path may contain line breaks of any kind
+                spool = pool if rng.random() < 0.3 else ([x for x in pool if not has_linebreak([x])] or ["mod"])
                 for i in range(rng.randint(1, 3)):
                     subs.append(["m%d" % i, rand_comps(rng, spool, 2), rng.choice(("noslash", "noslash", "slash", "dot"))])
+                if rng.random() < 0.3:
+                    # the directory the process is in has an entry named like a directory of the project that is a symbolic
+                    # link to a name that is a submodule path of the project
+                    other = rng.choice([x for x in pool if x != subs[0][1][0]] or ["other"])
+                    links.append([other, subs[0][1][0]])
             queries = []
             for _ in range(rng.randint(4, 10)):
                 r = rng.random()
@@ -175,8 +187,10 @@ class VcsCannedStream(Stream):
                     queries.append([None, "outside"])
                     continue
                 queries.append([list(comps), rng.choice(FORMS)])
+            for name, _ in links:
+                queries.append([[name], "walk"])
             yield {"kind": kind, "cwd": rng.choice(CWDS), "rootsp": rng.choice(ROOTSP), "entries": entries, "noise": noise,
-                   "subs": subs, "queries": queries}
+                   "subs": subs, "queries": queries, "links": links}
 
     # -- the emulated programs -------------------------------------------------
     @staticmethod
@@ -227,6 +241,7 @@ class VcsCannedStream(Stream):
                 if "-z" not in args:
                     raw2 = raw2.replace("\n", " ").replace("\0", "\n")
                 return subprocess.CompletedProcess(command, 0 if raw2 else 1, raw2.encode("utf-8"), b"")
+            calls[-1].append("unknown")
             return subprocess.CompletedProcess(command, 1, b"", b"unknown command")
         return run
 
@@ -234,7 +249,7 @@ class VcsCannedStream(Stream):
         from reuse import vcs
         cls = strategy_class(case["kind"])
         with cli.scratch("rv-vcs-") as top:
-            lay = Layout(top, case["cwd"], case["rootsp"])
+            lay = Layout(top, case["cwd"], case["rootsp"], case.get("links", ()))
             calls = []
             spelled = []
             for comps, form in case["queries"]:
@@ -266,7 +281,8 @@ class VcsCannedStream(Stream):
                 logging.disable(logging.NOTSET)
             facts = {"cwd": lay.cwd, "root": lay.rootsp, "raw1": raw1, "raw2": raw2, "queries": spelled}
             self._facts[json.dumps(case, sort_keys=True)] = facts
-            return json.dumps({"answers": answers, "facts": facts})
+            unknown = sorted({" ".join(c[0]) for c in calls if c[-1] == "unknown"})
+            return json.dumps({"answers": answers, "facts": facts, "unknown": unknown})
 
     def model_lines(self, case):
         f = self._facts.get(json.dumps(case, sort_keys=True))
@@ -278,7 +294,9 @@ class VcsCannedStream(Stream):
     def agree(self, case, impl_out, model_out):
         if impl_out.startswith("EXC"):
             return False
-        return json.loads(impl_out)["answers"] == model_out
+        r = json.loads(impl_out)
+        # a command the emulation does not know: the strategy no longer asks what the model reads — not comparable
+        return r["answers"] == model_out and not r.get("unknown")
 
     # -- generator ground truth ---------------------------------------------------
     @staticmethod
@@ -304,6 +322,8 @@ class VcsCannedStream(Stream):
         if impl_out.startswith("EXC"):
             return "vcs-crash: " + impl_out
         r = json.loads(impl_out)
+        if r.get("unknown"):
+            return None     # the emulated program was asked something else: reported as a broken correspondence, not judged here
         if r["answers"] == "IndexError":
             return "vcs-crash: IndexError while reading the submodule configuration %r" % r["facts"]["raw2"]
         answers = r["answers"].split(" ")
@@ -320,8 +340,12 @@ class VcsCannedStream(Stream):
                            if ign else
                            ("is no entry of the listing" if case["kind"] in ("git", "hg") else "is tracked (or contains tracked files)")))
             if (a[1] == "1") != sub:
-                return ("vcs-submodule-differs: process in %r, root %r, .gitmodules paths %r: is_submodule(%r) is %s, expected %s"
-                        % (r["facts"]["cwd"], r["facts"]["root"], r["facts"]["raw2"], q, a[1] == "1", sub))
+                links = case.get("links", ()) if case["cwd"] in ("top", "sibling") else ()
+                kind = ("vcs-submodule-cwd-link" if any(comps == [l[0]] for l in links) else
+                        "vcs-submodule-linebreak" if any(has_linebreak(x[1]) for x in case["subs"]) else "vcs-submodule-differs")
+                return ("%s: process in %r%s, root %r, .gitmodules paths %r: is_submodule(%r) is %s, expected %s"
+                        % (kind, r["facts"]["cwd"], "".join(" (which has a symbolic link %r -> %r)" % tuple(l) for l in links),
+                           r["facts"]["root"], r["facts"]["raw2"], q, a[1] == "1", sub))
         return None
 
     def nontrivial(self, case, impl_out):
